@@ -302,12 +302,12 @@ where
         let a: &GLWE<&[u8]> = &a.to_ref();
         assert_eq!(a.n(), self.n() as u32);
         assert_eq!(res.n(), self.n() as u32);
+        assert_eq!(res.base2k(), a.base2k());
         assert_eq!(a.rank(), res.rank());
         let cols = res.rank().as_usize() + 1;
         for i in 0..cols {
             self.vec_znx_negate(res.data_mut(), i, a.data(), i);
         }
-        res.base2k = a.base2k;
     }
 
     fn glwe_negate_assign<R>(&self, res: &mut R)
@@ -441,6 +441,7 @@ where
 
         assert_eq!(a.n(), self.n() as u32);
         assert_eq!(res.n(), self.n() as u32);
+        assert_eq!(res.base2k(), a.base2k());
         assert!(res.rank() == a.rank() || a.rank() == 0);
 
         let res_cols = (res.rank() + 1).into();
@@ -540,6 +541,7 @@ where
 
         assert_eq!(res.n(), self.n() as u32);
         assert_eq!(a.n(), self.n() as u32);
+        assert_eq!(res.base2k(), a.base2k());
         assert_eq!(res.rank(), a.rank());
 
         for i in 0..res.rank().as_usize() + 1 {
@@ -575,6 +577,7 @@ where
 
         assert_eq!(res.n(), self.n() as u32);
         assert_eq!(a.n(), self.n() as u32);
+        assert_eq!(res.base2k(), a.base2k());
         assert!(res.rank() == a.rank() || a.rank() == 0);
 
         let min_rank: usize = res.rank().min(a.rank()).as_usize() + 1;
